@@ -199,6 +199,6 @@ func TestC19(t *testing.T) {
 		Assumptions: []string{"literal differential: agreement with the documented semantics is C01/C02's job"},
 		Gen:         genC19,
 		Run:         runC19,
-		QuickChecks: 3000, ThoroughFactor: 20,
+		QuickChecks: 8000, ThoroughFactor: 8,
 	})
 }
